@@ -352,3 +352,189 @@ def completion_check(rt, rrt):
         want = rrt.steps.get(p)
         if want is not None and fr.steps != want:
             rt.violation("body-step-count", {"task": p, "steps": fr.steps, "reference": want})
+
+
+# ---------------------------------------------------------------------------
+# C06: an AsyncContext is active exactly while its task, or work only it awaits, runs
+
+
+def _awaiters_index(rt):
+    """child frame path -> set of frames currently suspended on it."""
+    idx = {}
+    for fr in rt.frames.values():
+        if fr.done or fr.rtdata is None:
+            continue
+        for l in fr.rtdata:
+            if l.kind in ("call", "shared") and l.obj is not None and not l.obj.is_computed():
+                idx.setdefault(l.path, []).append(fr)
+    return idx
+
+
+def _relation(rt, owner, running, idx, anchors):
+    """'runs' if owner is on the running stack; 'exclusive' if some running
+    task can only be reached (through awaiting edges, from any anchor of the
+    current waits) via owner; 'none' if owner awaits no running task;
+    'shared' otherwise."""
+    if any(r is owner for r in running):
+        return "runs"
+    rel = "none"
+    for r in running:
+        # upward closure from r
+        up = set()
+        stack = [r.path]
+        through_owner_only = True
+        reaches_owner = False
+        # explore upward avoiding owner: if an anchor is reachable, not exclusive
+        seen = set()
+        stack = [r.path]
+        reach_anchor_without_owner = False
+        while stack:
+            p = stack.pop()
+            if p in seen:
+                continue
+            seen.add(p)
+            if p in anchors and p != r.path:
+                reach_anchor_without_owner = True
+            for a in idx.get(p, ()):
+                if a is owner:
+                    reaches_owner = True
+                    continue
+                stack.append(a.path)
+        if r.path in anchors:
+            # r is itself awaited by running code (top level or a sync caller)
+            reach_anchor_without_owner = True
+        if reaches_owner:
+            if not reach_anchor_without_owner:
+                return "exclusive"
+            rel = "shared"
+    return rel
+
+
+def context_activity_probe(rt, where):
+    """Evaluate, for every live context, whether it must be active or paused now."""
+    if not rt.live_ctx:
+        return
+    running = rt.running
+    idx = _awaiters_index(rt)
+    anchors = set(w.path for w in rt.wait_frames)
+    for cid, ctx in list(rt.live_ctx.items()):
+        if ctx.fail is not None:
+            continue
+        owner = ctx.fr
+        rel = _relation(rt, owner, running, idx, anchors)
+        rt.n_ctx_checks = getattr(rt, "n_ctx_checks", 0) + 1
+        if rel in ("runs", "exclusive"):
+            if rel == "exclusive":
+                rt.n_ctx_exclusive = getattr(rt, "n_ctx_exclusive", 0) + 1
+            if not ctx.active:
+                rt.violation(
+                    "context-paused-while-its-task-or-awaited-work-runs",
+                    {"ctx": cid, "relation": rel, "at": where, "running": [r.path for r in running]},
+                )
+        elif rel == "none":
+            rt.n_ctx_must_be_paused = getattr(rt, "n_ctx_must_be_paused", 0) + 1
+            if ctx.active:
+                rt.violation(
+                    "context-active-while-unrelated-work-runs-or-flush",
+                    {"ctx": cid, "at": where, "running": [r.path for r in running]},
+                )
+        else:
+            rt.n_ctx_shared = getattr(rt, "n_ctx_shared", 0) + 1
+
+
+def ctx_step_probe(rt, fr, k):
+    context_activity_probe(rt, ("step", fr.path, k))
+
+
+def ctx_flush_probe(rt, batch):
+    context_activity_probe(rt, ("flush", getattr(batch, "bid", None)))
+    # NonAsync (=>): nobody outside the running chain may still sit suspended in a NonAsync block
+    if getattr(rt, "na_created", 0):
+        rt.n_na_flush_checks = getattr(rt, "n_na_flush_checks", 0) + 1
+    if rt.live_na:
+        idx = _awaiters_index(rt)
+        anchors = set(w.path for w in rt.wait_frames)
+        for cid, na in list(rt.live_na.items()):
+            owner = na.fr
+            rel = _relation(rt, owner, rt.running, idx, anchors)
+            if rel != "none":
+                continue
+            t = rt.tasks.get(owner.path)
+            if owner.rtdata is not None and not owner.done and (t is None or not t.is_computed()):
+                rt.violation(
+                    "task-suspended-across-flush-inside-NonAsyncContext",
+                    {"ctx": cid, "task": owner.path, "batch": getattr(batch, "bid", None)},
+                )
+
+
+def _bottoms_out_in_unflushed_item(rt, leaves, seen):
+    for l in leaves:
+        if l.obj is None or l.kind == "junk":
+            continue
+        if l.obj.is_computed():
+            continue
+        if l.kind in ("item", "dbg"):
+            return True
+        if l.kind in ("call", "shared"):
+            if l.path in seen:
+                continue
+            seen.add(l.path)
+            fr = rt.frames.get(l.path)
+            if fr is not None and fr.rtdata is not None:
+                if _bottoms_out_in_unflushed_item(rt, fr.rtdata, seen):
+                    return True
+    return False
+
+
+def nonasync_close_probe(rt, fr, k, leaves):
+    """(<=) a body closed while suspended inside a NonAsync block: the task
+    must really have been blocked on something that needs a flush."""
+    mine = [na for na in rt.live_na.values() if na.fr is fr]
+    if not mine:
+        return
+    t = rt.tasks.get(fr.path)
+    err = None
+    if t is not None and t.is_computed():
+        err = t.error()
+    if err is None or "cannot yield while" not in str(err):
+        return
+    rt.n_na_aborts = getattr(rt, "n_na_aborts", 0) + 1
+    if not _bottoms_out_in_unflushed_item(rt, leaves, set()):
+        rt.violation(
+            "NonAsyncContext-failed-a-task-that-did-not-need-a-flush",
+            {"task": fr.path, "yield": k},
+        )
+
+
+# ---------------------------------------------------------------------------
+# C07: activations nest (whatever was resumed last is paused first)
+
+
+def nesting_check(rt):
+    stack = []
+    n = 0
+    maxdepth = 0
+    for ev in rt.log:
+        if ev[0] == "ctx_resume":
+            stack.append(ev[1])
+            maxdepth = max(maxdepth, len(stack))
+        elif ev[0] == "ctx_pause":
+            n += 1
+            if not stack:
+                rt.violation("pause-without-matching-resume", {"ctx": ev[1]})
+                return
+            if stack[-1] != ev[1]:
+                if ev[1] in stack:
+                    rt.violation(
+                        "activations-not-nested",
+                        {"paused": ev[1], "but_most_recently_resumed_is": stack[-1], "depth": len(stack)},
+                    )
+                    stack.remove(ev[1])
+                else:
+                    rt.violation("pause-without-matching-resume", {"ctx": ev[1]})
+                return
+            stack.pop()
+    rt.n_nesting_events = getattr(rt, "n_nesting_events", 0) + n
+    rt.max_nesting = max(getattr(rt, "max_nesting", 0), maxdepth)
+    if stack:
+        rt.violation("context-left-active-after-computation", {"contexts": stack[:4]})
